@@ -18,6 +18,7 @@
 #include <csignal>
 #include <unistd.h>
 #include <fcntl.h>
+#include <sys/resource.h>
 
 #if defined(__SANITIZE_ADDRESS__)
 #include <sanitizer/lsan_interface.h>
@@ -118,6 +119,9 @@ static void sig_handler(int sig) {
 
 static inline void open_out(const std::string &path) {
 	Out &o = out();
+	if (const char *lim = getenv("VF_RLIMIT_AS_MB")) { // production-build passes: huge requests must fail as bad_alloc, not exhaust the machine
+		struct rlimit rl; rl.rlim_cur = rl.rlim_max = (rlim_t)atol(lim) << 20; setrlimit(RLIMIT_AS, &rl);
+	}
 	o.path = path;
 	o.f = fopen(path.c_str(), "w");
 	if (!o.f) { perror("open out"); _exit(2); }
